@@ -99,6 +99,18 @@ DIAG_SLOTS: Set[str] = set()
 def analyse(run: Run, rec: sym.Record, module: str, scope: str, event_params: Set[str], state_params: Dict[str, str],
             slots_written: Dict, slots_read: Dict, tables_read: Set[str], seen: Set) -> int:
     n = 0
+    for c in rec.calls:
+        # errno.errorcode.setdefault(...), os.environ.update(...): an object of the standard library changed in place
+        if c.func.op == "global" and c.func.a[0].count(".") >= 2 and c.func.a[0].split(".")[0] in ("errno", "signal", "socket", "os") \
+                and c.func.a[0].rsplit(".", 1)[1] in ("setdefault", "update", "pop", "popitem", "clear", "append", "extend", "insert", "remove",
+                                                     "add", "discard", "__setitem__", "__delitem__"):
+            k_ = (c.where, "stdlib", c.func.a[0])
+            if k_ not in seen:
+                seen.add(k_)
+                run.ob("R3", module, c.where.rsplit(".", 1)[-1], f"call {c.func.a[0]}", False,
+                       f"{c.where.rsplit('.', 1)[-1]} calls {c.func.a[0]}(...): an object of the standard library, shared by the whole "
+                       f"process, is changed in place - what one decode writes there is read back by every later one (of any thread, "
+                       f"any parser)", line=c.lineno)
     for e in rec.effects:
         pth = e.path if e.path is not None else e.base
         if e.kind.startswith("memo-"):
@@ -170,6 +182,14 @@ def analyse(run: Run, rec: sym.Record, module: str, scope: str, event_params: Se
                 run.ob("R3", module, scope_fn, f"{e.kind} default argument `{root.a[0]}`", False,
                        f"{scope_fn} mutates its mutable default argument `{root.a[0]}`: one object shared by every call, so what "
                        f"one decode stored is returned to another (of another thread, or of another kind)", line=e.lineno)
+            continue
+        if root.op == "global" and root.a[0].split(".")[0] in ("errno", "signal", "socket", "os", "sys") \
+                and e.kind in ("sub-store", "del-sub", "mut-call") and not (e.kind == "mut-call" and root.a[0].startswith(("sys.std", "os.write"))):
+            if key not in seen:
+                seen.add(key)
+                run.ob("R3", module, scope_fn, f"{e.kind} {sym.pretty(pth)[:60]}", False,
+                       f"{scope_fn} changes {sym.pretty(root)}, an object of the standard library shared by the whole process: what one decode "
+                       f"writes there is read back by every later one (of any thread, any parser)", line=e.lineno)
             continue
         if root.op in ("global", "class", "func") and (root.op != "global" or root.a[0].startswith("pykdebugparser.")):
             if key not in seen:
